@@ -179,13 +179,15 @@ class NormalRunner:
         if op in ("sample", "marginal", "conditional", "regress", "mse"):
             idx = [i % p for i in step.get("idx", [0])]
             idx = list(dict.fromkeys(idx))
+            if step.get("negative"):
+                idx = [i - p if k % 2 == 0 else i for k, i in enumerate(idx)]      # -1 .. -p are legal numpy indices
             args_store = []
 
             def call(m):
                 if op == "sample":
                     return m.sample(step["n"], random_state=step["seed"])
                 if op == "marginal":
-                    a = np.array(idx) if step.get("as_array") else list(idx)
+                    a = np.array(idx, dtype=np.int64) if step.get("as_array") else list(idx)
                     args_store.append(a)
                     return m.marginal(a)
                 if op == "conditional":
@@ -193,21 +195,32 @@ class NormalRunner:
                         return None
                     k = max(1, len(idx) // 2)
                     Y, Xi = list(idx[:k]), list(idx[k:])
+                    if step.get("as_array"):
+                        Y, Xi = np.array(Y, dtype=np.int64), np.array(Xi, dtype=np.int64)
                     x = np.arange(len(Xi), dtype=float) - 0.5
                     args_store.extend([Y, Xi, x])
                     return m.conditional(Y, Xi, x)
                 if op == "regress":
-                    Sx = list(idx[1:])
+                    Sx = np.array(idx[1:], dtype=np.int64) if step.get("as_array") else list(idx[1:])
                     args_store.append(Sx)
                     return m.regress(idx[0], Sx)
                 Sx = np.array(idx[1:], dtype=int)
                 args_store.append(Sx)
                 return m.mse(idx[0], Sx)
+            # the arguments are created inside call(); what they must still look like afterwards is known in advance
+            expect = {"marginal": lambda: [np.array(idx, dtype=np.int64) if step.get("as_array") else list(idx)],
+                      "regress": lambda: [np.array(idx[1:], dtype=np.int64) if step.get("as_array") else list(idx[1:])],
+                      "mse": lambda: [np.array(idx[1:], dtype=int)]}
             res = must(lib(call, self.model), "%s(%s)" % (op, idx))
-            before = _snap(args_store)
-            given = copy.deepcopy(args_store)
-            if _snap(given) != before:
-                raise Violation("argument_modified", "%s modified an index / value argument" % op)
+            if op in expect and _snap(args_store) != _snap(expect[op]()):
+                raise Violation("argument_modified", "%s modified the index argument it was given: %r (was %r)" % (op, args_store, expect[op]()))
+            if op == "conditional" and len(idx) >= 2:
+                k = max(1, len(idx) // 2)
+                wantY, wantX = list(idx[:k]), list(idx[k:])
+                if step.get("as_array"):
+                    wantY, wantX = np.array(wantY, dtype=np.int64), np.array(wantX, dtype=np.int64)
+                if _snap(args_store) != _snap([wantY, wantX, np.arange(len(idx) - k, dtype=float) - 0.5]):
+                    raise Violation("argument_modified", "conditional modified an index / value argument: %r" % (args_store,))
             fresh = must(lib(sempler.NormalDistribution, *[a.copy() for a in self.pristine]), "fresh NormalDistribution")
             args_store2 = args_store
             args_store = []
@@ -264,6 +277,9 @@ class AnmRunner:
         if p >= 2:
             self.noises[p - 1] = ParamNoise(np.array([0.5, 2.0]))         # a callable object holding an array
             self.param_noise = self.noises[p - 1]
+        if p >= 3:
+            pool = np.sin(np.arange(64.0)) * 2.0                          # a "distribution" replaying stored residuals
+            self.noises[p - 2] = lambda n, pool=pool: pool[:n]
         self.assign_list = assignments
         return sempler.ANM(A, assignments, self.noises)
 
@@ -294,6 +310,7 @@ class AnmRunner:
         p = self.model.p
         if op == "sample":
             table = [dict(), dict(do_interventions={0: noise.normal(1, 2)}), dict(shift_interventions={p - 1: noise.uniform(0, 1)}),
+                     dict(shift_interventions={max(p - 2, 0): noise.normal(2, 1)}),
                      dict(noise_interventions={0: noise.laplace(0, 1)}, do_interventions={p - 1: noise.normal(0, 1)}),
                      dict(do_interventions={0: noise.uniform(2, 3)}, shift_interventions={0: noise.normal(0, 1)})]
             iv = table[step["iv"] % len(table)]
@@ -577,7 +594,7 @@ def _init_normal():
 def _steps_normal():
     q = st.fixed_dictionaries({"op": st.sampled_from(["marginal", "conditional", "regress", "mse", "sample"]),
                                "idx": st.lists(st.integers(0, 4), min_size=1, max_size=4), "n": st.sampled_from([1, 3]), "seed": st.integers(0, 5),
-                               "as_array": st.booleans()})
+                               "as_array": st.booleans(), "negative": st.booleans()})
     return {"query": q, "mutate": st.sampled_from([{"op": "mutate_caller"}, {"op": "scribble"}])}
 
 
@@ -587,7 +604,7 @@ def _init_anm():
 
 
 def _steps_anm():
-    return {"sample": st.fixed_dictionaries({"op": st.just("sample"), "iv": st.integers(0, 4), "n": st.sampled_from([1, 5]), "seed": st.integers(0, 5)}),
+    return {"sample": st.fixed_dictionaries({"op": st.just("sample"), "iv": st.integers(0, 5), "n": st.sampled_from([1, 5]), "seed": st.integers(0, 5)}),
             "mutate": st.sampled_from([{"op": "mutate_caller"}, {"op": "scribble"}])}
 
 
